@@ -94,9 +94,12 @@ class WatchedLock:
         self.lock = threading.RLock()
         self.baton = baton
         self.index_of = index_of
+        self.releases = 0
+        self.depth = 0
 
     def acquire(self, blocking=True, timeout=-1):
         if self.lock.acquire(False):
+            self.depth += 1
             return True
         if not blocking:
             return False
@@ -105,12 +108,17 @@ class WatchedLock:
             self.baton.blocked[i] = True
             self.baton.give(1 - i)
         self.lock.acquire()
+        self.depth += 1
         if i is not None:
             self.baton.wait_turn(i)
         return True
 
     def release(self):
+        self.depth -= 1
+        free = self.depth == 0
         self.lock.release()
+        if free:
+            self.releases += 1           # (the lock is re-entrant: only the outermost release frees it)
 
     __enter__ = acquire
 
@@ -127,6 +135,19 @@ def make_run(W, shape, known_active=None, replay_info=None):
     k1v = ex.int("kappa1")
     lo, hi = shape.get("krange", (1, MAXK))
     ex.s.add(k1v >= lo, k1v <= hi)
+    waiter = shape.get("family") == "waiter"
+    if waiter:
+        # B is made to wait for the build lock while A builds; after A has released it, A is pre-empted at its kappa2-th line, B (which now
+        # owns the lock) runs until its kappa3-th line, then A runs to completion, then B
+        k2w = ex.int("kappa2")
+        k3w = ex.int("kappa3")
+        ex.s.add(k2w >= shape["k2range"][0], k2w <= shape["k2range"][1], k3w >= 1, k3w <= shape.get("k3max", MAXK))
+        k2step = shape.get("k2step", 1)
+        if k2step > 1:
+            ex.s.add(z3.Or(k2w % k2step == 0, k2w == shape["k2range"][1]))
+        k3step = shape.get("k3step", 1)
+        if k3step > 1:
+            ex.s.add(z3.Or(k3w % k3step == 0, k3w == shape.get("k3max", MAXK)))
     two = shape.get("preemptions", 1) == 2
     if two:
         k2v = ex.int("kappa2")
@@ -160,6 +181,18 @@ def make_run(W, shape, known_active=None, replay_info=None):
         return ov, LOG
 
     def op(ov, spec):
+        if spec[0] == "seq":
+            parts = [op(ov, sp) for sp in spec[1]]
+
+            def seq():
+                out = []
+                for p_ in parts:
+                    try:
+                        out.append(p_())
+                    except TypeError as e:
+                        out.append("TypeError:" + str(e)[:40])
+                return out
+            return seq
         kind, c, f = spec
         a = mkarg(c, f)
         if kind == "call":
@@ -206,6 +239,8 @@ def make_run(W, shape, known_active=None, replay_info=None):
             baton.progress[i] += 1
             if baton.turn != i:
                 baton.wait_turn(i)          # (a thread that was blocked on a lock wakes up: it runs only on its turn)
+            if waiter:
+                return waiter_hook(i, code, lineno)
             if i == 0 and switched[0] is None:
                 counts[0] += 1
                 loc = f"{code.co_filename.split('/')[-1] if not code.co_filename.startswith('<ovld') else '<generated>'}:{lineno} in {code.co_name.split('[')[0]}"
@@ -219,6 +254,38 @@ def make_run(W, shape, known_active=None, replay_info=None):
                 counts[1] += 1
                 if counts[1] == k2 and not baton.done[0]:
                     switched[1] = counts[1]
+                    baton.give(0)
+                    baton.wait_turn(1, watch=True)
+
+        wst = dict(phase=0, c2=0, c3=0, k2=None, k3=None, sw2=None, sw3=None)
+        if waiter:
+            wst["k2"] = ctx.value(k2w).as_long()
+            wst["k3"] = ctx.value(k3w).as_long()
+
+        def waiter_hook(i, code, lineno):
+            lock = getattr(ov, "_build_lock", None)
+            if i == 0:
+                if wst["phase"] == 0:
+                    counts[0] += 1
+                    if counts[0] == k1 and not baton.done[1]:
+                        # B starts now; it will block on the build lock A holds (or, if there is no lock / A does not hold it, run on)
+                        wst["phase"] = 1
+                        switched[0] = ("waiter", counts[0])
+                        wst["rel0"] = lock.releases if isinstance(lock, WatchedLock) else 0
+                        baton.give(1)
+                        baton.wait_turn(0, watch=True)
+                elif wst["phase"] == 1 and baton.blocked[1] and isinstance(lock, WatchedLock) and lock.releases > wst["rel0"] and not baton.done[1]:
+                    wst["c2"] += 1
+                    if wst["c2"] == wst["k2"]:
+                        wst["phase"] = 2
+                        wst["sw2"] = wst["c2"]
+                        baton.give(1)
+                        baton.wait_turn(0, watch=True)
+            elif i == 1 and wst["phase"] == 2 and not baton.done[0]:
+                wst["c3"] += 1
+                if wst["c3"] == wst["k3"]:
+                    wst["phase"] = 3
+                    wst["sw3"] = wst["c3"]
                     baton.give(0)
                     baton.wait_turn(1, watch=True)
 
@@ -254,6 +321,15 @@ def make_run(W, shape, known_active=None, replay_info=None):
             ctx.pc.append(k1v == k1)
         else:
             ctx.pc.append(k1v > counts[0])
+        if waiter:
+            if wst["sw2"] is not None:
+                ctx.pc.append(k2w == wst["k2"])
+                if wst["sw3"] is not None:
+                    ctx.pc.append(k3w == wst["k3"])
+                else:
+                    ctx.pc.append(k3w > wst["c3"])
+            else:
+                ctx.pc.append(k2w > wst["c2"])
         if two:
             if switched[1] is not None:
                 ctx.pc.append(k2v == k2)
@@ -274,8 +350,11 @@ def make_run(W, shape, known_active=None, replay_info=None):
         exp, exp_after = refcache["exp"], refcache["after"]
         ok = (not hang) and results == exp and after == exp_after
         info = dict(scenario=shape["name"], switch_at=list(switched[0]) if switched[0] else None, second_switch=switched[1],
+                    waiter=dict(a_lines_after_release=wst["c2"], a_preempted_at=wst["sw2"], b_lines=wst["c3"], b_preempted_at=wst["sw3"]) if waiter else None,
                     results=results, alone=exp if results != exp else None, b_blocked_on_lock=baton.blocked[1], probes_after=after if after != exp_after else "as sequential",
                     sequential=exp_after if after != exp_after else None, hang=hang, _lines=counts)
+        if waiter:
+            return Verdict(ok, (), info, ["handover" if wst["sw2"] else "no-handover"], nontrivial=wst["sw2"] is not None)
         return Verdict(ok, (), info, ["switched" if switched[0] else "sequential"], nontrivial=switched[0] is not None)
 
     return run
@@ -293,6 +372,22 @@ SCEN = [
     dict(name="miss-vs-call_next-other-type", methods=[0, 1, 2, 6], warm=[[3, False]], a=["call", 0, False], b=["call", 5, False]),
     dict(name="first-vs-call_next-other-type", methods=[0, 1, 2, 6], a=["call", 0, False], b=["call", 5, False]),
 ]
+
+
+WAITER = [
+    dict(name="waiter-first-then-recursive", family="waiter", methods=[4, 0, 1, 2, 3], a=["seq", [["call", 0, False], ["call", 4, False]]],
+         b=["call", 0, False], krange=[300, 300]),
+]
+
+
+def count_waiter_lines(shape):
+    from symx.engine import Explorer
+
+    sh = dict(shape, k2range=[1, MAXK])
+    ex = Explorer(forced={"kappa2": MAXK - 1, "kappa3": MAXK})
+    W = make_world(ex, sh, False)
+    st, c = ex.explore(make_run(W, sh), max_paths=1)
+    return st["samples"][0]["waiter"]["a_lines_after_release"]
 
 
 def count_lines(shape):
@@ -316,6 +411,18 @@ def gen_shapes(tier, seed):
         while lo <= n:
             hi = min(n, lo + step - 1)
             shapes.append(dict(s, krange=[lo, hi if hi < n else MAXK], preemptions=1))
+            lo = hi + 1
+    # hand-over of the build lock: B waits for the lock while A builds; after the release A is pre-empted at every k2step-th line, B at
+    # every k3step-th of its lines
+    for w in WAITER:
+        step = 10 if tier == "quick" else 3
+        n2 = count_waiter_lines(w)
+        chunks = 16 if tier == "quick" else 64
+        size = max(step, ((n2 + chunks - 1) // chunks + step - 1) // step * step)
+        lo = 1
+        while lo <= n2:
+            hi = lo + size - 1
+            shapes.append(dict(w, k2range=[lo, hi if hi < n2 else MAXK], k2step=step, k3step=step))
             lo = hi + 1
     if tier != "quick":
         # two pre-emptions on a reduced set of first switch points (every 7th line), second switch anywhere in B
@@ -345,7 +452,10 @@ def main(tier, seed):
         PID, tier, seed, t0, results, level="model_checking",
         bounds=dict(threads=2, preemptions="1 (every executed ovld line of thread A is a switch point; B then runs to completion)"
                     + ("" if tier == "quick" else "; 2 on a reduced set of first switch points (every 200th line, 2 scenarios), second switch at every line of B"),
-                    scenarios=[s["name"] for s in (SCEN if tier != "quick" else [SCEN[i] for i in (0, 1, 4, 5, 6, 8)])],
+                    scenarios=[s["name"] for s in (SCEN if tier != "quick" else [SCEN[i] for i in (0, 1, 4, 5, 6, 8)])] + [w["name"] for w in WAITER],
+                    lock_handover="B is started while A builds (fixed line 300 of the build) and waits for the build lock; after A has released it, A is "
+                                  "pre-empted at every %d-th of its remaining lines (rest of the first call, then a recursive call) and B, now owning the lock, at every "
+                                  "%d-th of its lines; then A runs to completion, then B" % ((10, 10) if tier == "quick" else (3, 3)),
                     granularity="source lines of ovld/*.py and generated <ovld:...> code (not bytecodes; a switch inside a line is outside the claim)",
                     hierarchy="fixed: K0 < K1, K2 apart"),
         rule="one state = one (scenario, schedule); non-trivial = a pre-emption actually happened",
